@@ -60,6 +60,7 @@ class G(NativeModel):
         self.failed = False       # a step failed (solver / trials)
         self.got_results = False
         self.compute_calls = 0
+        self.step_failed = False  # the last solver call of the current trial failed
 
     def ob(self, name, goal):
         self.path.oblige(name, goal, kind="protocol")
@@ -232,6 +233,7 @@ def _models(cfg):
             p = interp.path
             ok = p.branch(p.fresh("solver_converged", "bool").t)
             g.solved = ok
+            g.step_failed = not ok
             return (1 if ok else 0, "mesg", 5)
         reg(core._solver_helper, solver_helper, verified_by="wntr.sim.core:_solver_helper / NewtonSolver.solve (contracts/c16_solver.py)")
 
@@ -394,8 +396,19 @@ def _mk_loop(cfg):
     base = while_invariant(_inv(cfg), variant=_variant, havoc=_havoc)
 
     def spec(interp, s, env):
-        # failure bookkeeping: the stubs cannot see `break`; mark failure when error_code is set
-        return base(interp, s, env)
+        r = base(interp, s, env)
+        # the loop was left (break): why, and was the reason reported?
+        L = env.locals
+        sim = L["self"]
+        wn = sim.fields["_wn"]
+        g = wn.ghost
+        res = L["results"]
+        gave_up = z3.Or(z3.BoolVal(bool(g.step_failed)), z3.And(tb(L["resolve"]), iv(L["trial"]) > iv(L["max_trials"])))
+        reported = z3.BoolVal(res.error_code is wntr.sim.results.ResultsStatus.error and bool(g.warned))
+        g.ob("run_stops_early_only_for_a_failed_step_and_reports_it", gave_up == reported)
+        g.ob("otherwise_the_run_ends_because_the_duration_is_exceeded",
+             z3.Or(gave_up, rv(wn.sim_time) > z3.ToReal(iv(wn.options.time.duration))))
+        return r
     return spec
 
 
